@@ -684,6 +684,10 @@ pub fn sharded_dyn<F: Fn(usize, usize, &dyn Fn() -> usize, &Report)>(rep: &Repor
             let text = serde_json::to_string(&child.to_partial()).unwrap();
             let _ = std::fs::write(dir.join(format!("{k}.json")), text);
             cleanup_scratch_root();
+            if std::env::var("VERIF_COVERAGE").is_ok() {
+                // coverage builds write their profile from an exit handler
+                std::process::exit(0);
+            }
             unsafe { libc::_exit(0) };
         }
         pids.push((k, pid));
